@@ -211,7 +211,92 @@ def r36_none_vs_zero(ctx):
                    "never tested by truthiness" % (len(nullable),
                                                    ", ".join(nullable)),
                    ("C07", "C09", "C20", "C08"))
+    _r36_slot_truthiness(ctx, mins)
     _r36_year_truthiness(ctx)
+
+
+def _r36_slot_truthiness(ctx, mins):
+    """Outside the constructors too: a stored field for which 0 is a legal
+    value (hour 00, minute 00, second 00, year 0, a +00 zone component) is
+    never read by truthiness in TimePoint / TimeZone code - neither by name
+    nor through a computed getattr() over the slots."""
+    rep = ctx.rep
+    rule = "R36.none-vs-zero"
+    zero_ok = {"_" + k for k, v in mins.items() if v <= 0} | {"_year"}
+    zero_ok -= {"_truncated", "_unknown"}
+    tp = ctx.model.cls("TimePoint")
+    n_f = 0
+    bad = []
+
+    def tp_object(f, e):
+        if isinstance(e, ast.Name) and e.id == f.self_name:
+            return True
+        return "TimePoint" in ctx.types_in(f, e)
+
+    for name, f in sorted(tp.methods.items()):
+        if name == "__init__":
+            continue
+        n_f += 1
+        dyn = {}        # local name -> getattr call over a TimePoint object
+        for n in walk_no_nested(f.node):
+            if isinstance(n, ast.Assign) and len(n.targets) == 1 and \
+                    isinstance(n.targets[0], ast.Name) and isinstance(
+                        n.value, ast.Call) and U(n.value.func) == "getattr" \
+                    and len(n.value.args) >= 2 and not isinstance(
+                        n.value.args[1], ast.Constant) and tp_object(
+                            f, n.value.args[0]):
+                dyn[n.targets[0].id] = n.value
+
+        def uses(e):
+            out = []
+            if isinstance(e, ast.BoolOp):
+                for v in e.values:
+                    out.extend(uses(v))
+            elif isinstance(e, ast.UnaryOp) and isinstance(e.op, ast.Not):
+                out.extend(uses(e.operand))
+            elif isinstance(e, ast.Call) and U(e.func) == "bool" and e.args:
+                out.extend(uses(e.args[0]))
+            elif isinstance(e, ast.Attribute) and e.attr in zero_ok and \
+                    tp_object(f, e.value):
+                out.append((e, "the field %s" % U(e)))
+            elif isinstance(e, ast.Name) and e.id in dyn:
+                out.append((e, "`%s` (= %s, any stored field)" % (
+                    e.id, U(dyn[e.id]))))
+            elif isinstance(e, ast.Call) and U(e.func) == "getattr" and \
+                    len(e.args) >= 2 and not isinstance(
+                        e.args[1], ast.Constant) and tp_object(f, e.args[0]):
+                out.append((e, "%s (any stored field)" % U(e)))
+            return out
+        for n in walk_no_nested(f.node):
+            tests = []
+            if isinstance(n, (ast.If, ast.While, ast.IfExp)):
+                tests.append(n.test)
+            elif isinstance(n, ast.BoolOp):
+                tests.append(n)
+            elif isinstance(n, ast.UnaryOp) and isinstance(n.op, ast.Not):
+                tests.append(n)
+            elif isinstance(n, ast.comprehension):
+                tests.extend(n.ifs)
+            for t in tests:
+                for x, what in uses(t):
+                    bad.append((f, x, what))
+    seen = set()
+    for f, x, what in bad:
+        k = (f.qual, U(x))
+        if k in seen:
+            continue
+        seen.add(k)
+        rep.violation(
+            rule, ctx.fkey(f, None, "field-truthiness:" + U(x)), f.loc(x),
+            "%s tests %s by truthiness: 0 is a legal value there (hour 00, "
+            "minute 00, second 00, year 0), so a field that is zero is taken "
+            "for one that is absent" % (f.qual, what),
+            ("C07", "C09", "C20", "C08", "C01"))
+    if not bad:
+        rep.ok(rule, "data.py:TimePoint:fields-never-truthy", "-",
+               "no zero-legal stored field (%s) is read by truthiness in %d "
+               "TimePoint methods" % (", ".join(sorted(zero_ok)), n_f),
+               ("C07", "C09", "C20", "C08"))
 
 
 def _r36_year_truthiness(ctx):
@@ -493,7 +578,21 @@ class _FormPlugin(Plugin):
         if e is None:
             return None
         form = self._form(d)
-        for n in ast.walk(e):
+
+        def nodes(x):
+            """the sub-expressions evaluated in this form: a conditional
+            expression contributes only the branch its test selects"""
+            if isinstance(x, ast.IfExp):
+                yes, no = self.refine(x.test, d)
+                if yes:
+                    yield from nodes(x.body)
+                if no:
+                    yield from nodes(x.orelse)
+                return
+            yield x
+            for c in ast.iter_child_nodes(x):
+                yield from nodes(c)
+        for n in nodes(e):
             if isinstance(n, ast.Attribute) and isinstance(
                     n.value, ast.Name) and n.value.id == self.selfn and \
                     isinstance(n.ctx, ast.Load):
@@ -545,15 +644,23 @@ def _r40_days_normalised(ctx, rep, rule, dur):
             "weeks" not in init.call_params:
         return
     sn = init.self_name
+    # (the part of the constructor before the optional standardisation,
+    # which only moves whole multiples between slots that are numbers)
     prefix = []
     for st in init.node.body:
-        if any(isinstance(x, ast.Attribute) and x.attr == "_hours" and
-               isinstance(x.ctx, ast.Store) for x in ast.walk(st)):
+        if isinstance(st, ast.If) and U(st.test) == "standardize":
             break
         prefix.append(st)
     bad = []
     n_paths = 0
-    for p in explore(prefix):
+    try:
+        paths = explore(prefix)
+    except AnalysisError:
+        rep.undecided(rule, ctx.fkey(init, None, "days-normalised"),
+                      init.loc(), "Duration.__init__ has too many paths for "
+                      "the decision table", ("C11", "C10"))
+        return
+    for p in paths:
         if p.outcome == "return":
             continue
         n_paths += 1
@@ -578,6 +685,44 @@ def _r40_days_normalised(ctx, rep, rule, dur):
                   ("C11", "C10"))
 
 
+def _is_exact_shape(ie):
+    """is_exact() answers False exactly when years or months is truthy -
+    read off its decision table, however it is spelled."""
+    from ..dtable import explore
+    from ..model import clone
+
+    class _Boolify(ast.NodeTransformer):
+        def visit_Return(self, node):
+            if node.value is None or isinstance(node.value, ast.Constant):
+                return node
+            return ast.copy_location(ast.If(
+                test=node.value,
+                body=[ast.Return(value=ast.Constant(value=True))],
+                orelse=[ast.Return(value=ast.Constant(value=False))]), node)
+    body = [ast.fix_missing_locations(_Boolify().visit(clone(st)))
+            for st in ie.node.body]
+    try:
+        paths = explore(body)
+    except AnalysisError:
+        return False
+    sn = ie.self_name
+    atoms = {sn + "._years", sn + "._months"}
+    seen = 0
+    for p in paths:
+        if p.outcome != "return" or not isinstance(p.value, ast.Constant):
+            return False
+        if set(p.decisions) - atoms:
+            return False
+        anyset = any(p.decisions.get(a) for a in atoms)
+        allclear = all(p.decisions.get(a) is False for a in atoms)
+        if p.value.value is False and not anyset:
+            return False
+        if p.value.value is True and not allclear:
+            return False
+        seen += 1
+    return seen >= 2
+
+
 def r40_duration_form(ctx):
     rep = ctx.rep
     rule = "R40.duration-form"
@@ -586,13 +731,7 @@ def r40_duration_form(ctx):
     _r40_days_normalised(ctx, rep, rule, dur)
     ie = dur.methods.get("is_exact")
     if ie is not None:
-        ifs = [n for n in walk_no_nested(ie.node) if isinstance(n, ast.If)]
-        _FormPlugin.is_exact_shape = (
-            len(ifs) == 1 and isinstance(ifs[0].test, ast.BoolOp) and
-            isinstance(ifs[0].test.op, ast.Or) and
-            {U(v) for v in ifs[0].test.values} == {
-                ie.self_name + "._years", ie.self_name + "._months"} and
-            U(ifs[0].body[0]) == "return False")
+        _FormPlugin.is_exact_shape = _is_exact_shape(ie)
     for name in ("__hash__", "__eq__", "get_days_and_seconds",
                  "_get_non_nominal_seconds", "get_seconds", "to_days",
                  "to_weeks", "__floordiv__"):
@@ -858,15 +997,15 @@ def r45_strptime_partition(ctx):
     tables = {"get_date_translate_info": T.date_info(2),
               "get_time_translate_info": T.time_info(),
               "get_time_zone_translate_info": T.zone_info()}
-    loops = []      # (node for the report, iterated call, scope to search)
+    loops = []      # (node for the report, iterated call, scope, target)
     for n in walk_no_nested(f.node):
         if isinstance(n, ast.For) and isinstance(n.iter, ast.Call):
-            loops.append((n, n.iter, n))
+            loops.append((n, n.iter, n, n.target))
         elif isinstance(n, (ast.ListComp, ast.SetComp, ast.GeneratorExp)):
             for g in n.generators:
                 if isinstance(g.iter, ast.Call):
-                    loops.append((n, g.iter, n))
-    for n, it, scope in loops:
+                    loops.append((n, g.iter, n, g.target))
+    for n, it, scope, target in loops:
         getter = U(it.func).split(".")[-1]
         if getter not in tables:
             continue
@@ -874,6 +1013,15 @@ def r45_strptime_partition(ctx):
                 if isinstance(x, ast.Subscript) and isinstance(
                     x.slice, ast.Constant) and isinstance(
                         x.slice.value, int)}
+        if not cols and isinstance(target, ast.Tuple):
+            # the row is unpacked: the column is the position of the
+            # unpacked name that is used
+            used = {x.id for part in (
+                [scope.elt] if hasattr(scope, "elt") else scope.body)
+                for x in ast.walk(part) if isinstance(x, ast.Name) and
+                isinstance(x.ctx, ast.Load)}
+            cols = {i for i, t in enumerate(target.elts)
+                    if isinstance(t, ast.Name) and t.id in used}
         if not cols:
             continue
         rep.anchor(rule, "key lists")
@@ -911,7 +1059,7 @@ def r45_strptime_partition(ctx):
             if tail and "time_zone" in U(tail[0]) and isinstance(
                     tail[0], ast.Assign):
                 zone_else = True
-    lists = [U(it.func).split(".")[-1] for _, it, _ in loops]
+    lists = [U(it.func).split(".")[-1] for _, it, _, _ in loops]
     if "get_time_zone_translate_info" not in lists:
         rep.check(zone_else, rule, ctx.fkey(f, None, "zone-bucket"), f.loc(),
                   "keys in neither the date nor the time list go to the "
@@ -1250,14 +1398,44 @@ def r49_week_year_span(ctx):
         yp = f.params[0]
         offs = set()
         unknown = []
+        # what is returned: literal triples, or the items of a local
+        # generator the function walks (its yields)
+        local_gens = {d.name: d for d in f.node.body
+                      if isinstance(d, ast.FunctionDef) and any(
+                          isinstance(y, ast.Yield) for y in ast.walk(d))}
+        triples = []
         for n in walk_no_nested(f.node):
-            if isinstance(n, ast.Return) and isinstance(
-                    n.value, ast.Tuple) and len(n.value.elts) == 3:
-                o = offset(n.value.elts[0], yp, f.node)
-                if o is None:
-                    unknown.append(U(n.value.elts[0]))
-                else:
-                    offs.add(o)
+            if not (isinstance(n, ast.Return) and n.value is not None):
+                continue
+            v = n.value
+            if isinstance(v, ast.Tuple) and len(v.elts) == 3:
+                triples.append(v)
+                continue
+            src = None
+            if isinstance(v, ast.Name):
+                for lp in walk_no_nested(f.node):
+                    if isinstance(lp, ast.For) and isinstance(
+                            lp.target, ast.Name) and lp.target.id == v.id \
+                            and isinstance(lp.iter, ast.Call) and isinstance(
+                                lp.iter.func, ast.Name) and \
+                            lp.iter.func.id in local_gens:
+                        src = local_gens[lp.iter.func.id]
+            if src is None:
+                unknown.append(U(v))
+                continue
+            for y in ast.walk(src):
+                if isinstance(y, ast.Yield):
+                    if isinstance(y.value, ast.Tuple) and len(
+                            y.value.elts) == 3:
+                        triples.append(y.value)
+                    else:
+                        unknown.append(U(y))
+        for v in triples:
+            o = offset(v.elts[0], yp, f.node)
+            if o is None:
+                unknown.append(U(v.elts[0]))
+            else:
+                offs.add(o)
         if unknown or not offs:
             rep.note(rule, "get_calendar_date_from_week_date returns years "
                      "%s in a form this rule does not read: span not decided"
